@@ -39,7 +39,10 @@
 (*          aws-chunked modes: X-Amz-Decoded-Content-Length (a signed      *)
 (*          header: the request is signed with the deviating value)        *)
 (*  httpcl  aws-chunked only: Content-Length of the encoded stream is      *)
-(*          exact | larger than the bytes sent (client half-closes)        *)
+(*          exact | larger than the bytes sent (client half-closes) |      *)
+(*          chunked: no Content-Length at all, the encoded stream is       *)
+(*          framed by Transfer-Encoding: chunked (then the declared        *)
+(*          decoded length is the only declared length of the request)     *)
 (***************************************************************************)
 EXTENDS Integers, Sequences, FiniteSets, TLC
 
@@ -108,7 +111,7 @@ CrossOK(r) ==
 \* the consistent request matrix (as a predicate; UploadIntegrityVec enumerates it)
 Consistent(r, Algos) ==
     /\ r.op \in Ops /\ r.target \in Targets /\ r.mode \in Modes /\ r.empty \in BOOLEAN
-    /\ r.md5 \in Tri /\ r.decl \in Decls /\ r.httpcl \in {"exact", "larger"}
+    /\ r.md5 \in Tri /\ r.decl \in Decls /\ r.httpcl \in {"exact", "larger", "chunked"}
     /\ <<r.corr, r.pos>> \in CorrPos
     /\ ModeOK(r, Algos) /\ CrossOK(r)
 
@@ -197,7 +200,7 @@ D(r) == (IF Wrong(r.md5) THEN 1 ELSE 0) + (IF Wrong(r.sha) THEN 1 ELSE 0)
       + (IF Wrong(r.csh) THEN 1 ELSE 0) + (IF Wrong(r.cst) THEN 1 ELSE 0)
       + (IF Wrong(r.csig) THEN 1 ELSE 0) + (IF Wrong(r.tsig) THEN 1 ELSE 0)
       + (IF r.corr # "none" THEN 1 ELSE 0) + (IF r.decl # "equal" THEN 1 ELSE 0)
-      + (IF r.httpcl # "exact" THEN 1 ELSE 0)
+      + (IF r.httpcl = "larger" THEN 1 ELSE 0)   \* ("chunked" framing is not a defect)
 
 \* some assertion that covers the payload content is made
 ContentAsserted(r) == \E v \in {r.md5, r.sha, r.csh, r.cst, r.csig} : v \notin {"absent", "na"}
